@@ -40,5 +40,6 @@ Spec == Init /\ [][Next]_vars
 (* the folded step used by generation and trace validation lands exactly on the `asked` states of the model *)
 FoldIsSound == asked /\ ~dead => /\ consumed = UnitsWithin(delivered)
                                  /\ events = EventsOf(delivered)
+                                 /\ consumed = SumGotAll(events, Len(events))
                                  /\ Len(events) <= Len(frames)
 =============================================================================
